@@ -1209,6 +1209,10 @@ func (c *Context) quantize(d, v *Decimal, exp int32) Condition {
 			}
 		} else {
 			nc := c.WithPrecision(uint32(p))
+			// The value rounded below is an intermediate one with exponent -diff, not
+			// the result. Its adjusted exponent can be -1, which must not be taken for
+			// a subnormal of the caller's context when c.MinExponent is 0.
+			nc.MinExponent = MinExponent
 
 			// The idea here is that the resulting d.Exponent after rounding will be 0. We
 			// have a number of, say, 5 digits, but p (our precision) above is set at, say,
